@@ -118,6 +118,9 @@ func TestWorker(t *testing.T) {
 		emit("SPEC", spec)
 		return
 	}
+	if n := os.Getenv("VERIF_TRACE_LOG"); n != "" {
+		core.TraceSink, _ = os.OpenFile(n, os.O_WRONLY|os.O_CREATE|os.O_TRUNC, 0o644)
+	}
 	startWatchdog()
 	exec := func(tp *tape.Tape) *core.RunResult {
 		beat()
@@ -239,7 +242,11 @@ func raceMode(job Job) {
 			ops += racew.UCI(seed, per, int(i%4))
 		case "C18":
 			w := []int{2, 1, 0, 3}[i%4]
-			ops += racew.Engine(seed, per, w, 0, 25)
+			if (i/4)%2 == 0 {
+				ops += racew.Engine(seed, per, w, 0, 25)
+			} else {
+				ops += racew.EngineTwoClients(seed, per, w, 25)
+			}
 		}
 		rounds++
 	}
